@@ -67,6 +67,9 @@ REQUIRED_TALLIES = [('op', 'series.sort_values'), ('op', 'series.sort_index'), (
 # --------------------------------------------------------------------------------------
 # ordering of cells (the statement's "non-decreasing", with NumPy's placement of NaN / NaT)
 
+TECHNIQUE = 'runtime monitoring: stable-sort reference (Python sorted on model keys) compared with the returned arrangement: permutation, order, stability with ties, labels carried with rows, grown-unread containers'
+
+
 def _sk(v):
     """Sort key of one key cell.  Cells of one key vector are mutually comparable."""
     if isinstance(v, (bool, np.bool_)):
